@@ -309,7 +309,19 @@ func ecdsaReferenceAgreement(p *Prog, r *Report, R6 string) {
 		r.Fail(R6, "hashToInt == GOROOT crypto/ecdsa.hashToInt", "-", "fork has no hashToInt")
 	} else {
 		ok, diff := funcsAgree(f, ref.funcs["hashToInt"])
-		r.Check(ok, R6, "hashToInt == GOROOT crypto/ecdsa.hashToInt", p.Pos(token.NoPos)+"ecdsa/"+fork.fileOf["hashToInt"], "identical modulo renaming/comments", "digest-to-integer conversion differs from the standard library's: "+diff)
+		good := "identical modulo renaming/comments"
+		if !ok {
+			// not the reference text: decide the conversion itself
+			decided, sok, detail := hashToIntSemantic(p, p.Func("~/ecdsa.hashToInt"))
+			if decided && sok {
+				ok, good = true, "differs textually from the reference; "+detail
+			} else if decided {
+				diff += "; and the conversion itself differs: " + detail
+			} else {
+				diff += "; and the conversion could not be decided semantically: " + detail
+			}
+		}
+		r.Check(ok, R6, "hashToInt == GOROOT crypto/ecdsa.hashToInt", p.Pos(token.NoPos)+"ecdsa/"+fork.fileOf["hashToInt"], good, "digest-to-integer conversion differs from the standard library's: "+diff)
 	}
 	embed := func(forkName, refName, from string, minStmts int) {
 		ff, rf := fork.funcs[forkName], ref.funcs[refName]
